@@ -42,7 +42,11 @@ pub struct Variant {
     pub rot: usize,
     /// 1: keyframes added in ascending order of position, 2: in descending order (0: as described, rotated by `rot`)
     pub sorted: u8,
+    /// every value v of the i32 property becomes sign(v) * (8388609 + 2|v|): odd, in [2^23, 2^24) - the top of the
+    /// range in which f32 represents every integer
+    pub band: bool,
 }
+pub fn band_of(v: i64) -> i32 { if v < 0 { -(8388609 + 2 * v.unsigned_abs() as i32) } else { 8388609 + 2 * v as i32 } }
 
 fn nk_all_distinct(line: &Value) -> bool { distinct_positions(line) }
 
@@ -78,7 +82,7 @@ pub fn config_tl_var(cfg: &Value, pd: i64, pmap: &[usize], s: i64, var: Variant)
             for (i, d) in kf["d"].as_array().unwrap().iter().enumerate() {
                 if let Some(v) = d.as_array().unwrap().first() {
                     let v = v.as_i64().unwrap();
-                    let n = match var.big100 { Some((orig, big)) if orig == v && kf["pos"].as_i64().unwrap() == pd => big, _ => v as i32 };
+                    let n = match var.big100 { Some((orig, big)) if orig == v && kf["pos"].as_i64().unwrap() == pd => big, _ => if var.band { band_of(v) } else { v as i32 } };
                     k = match pmap[i] { 1 => k.x(v as f32 * vscale()), 2 => k.y(v as f32 * vscale()), 3 => k.n(n), 4 => k.m(v as i16), _ => unreachable!() };
                 }
             }
@@ -329,6 +333,38 @@ pub fn replay_tl_line(tally: &mut Tally, lineno: usize, line: &Value, scales: &[
                 Err(e) => { let msg = e.downcast_ref::<String>().cloned().or_else(|| e.downcast_ref::<&str>().map(|s| s.to_string())).unwrap_or_default();
                             tally.miss(json!({"line": lineno, "scale": "i32 beyond 2^24 at the 100% keyframe", "class": "panic", "panic": msg})); }
             }
+        }
+    }
+    // the i32 property with every value moved to the odd integers just below 2^24 (all of them f32 numbers): wherever
+    // the specification predicts exactly a keyframe's value (keyframe hit, up to the delay, pass ends, after the end)
+    // the result is that integer exactly
+    if let (Some(ni), false) = (pmap.iter().position(|&p| p == 3), has_ov) {
+        let r = catch_unwind(AssertUnwindSafe(|| {
+            let mut local = Tally::new();
+            let tl = config_tl_var(line, pd, &pmap, 0, Variant { band: true, ..Variant::default() }).build();
+            let ts = line.get("ts").and_then(|c| c.as_array());
+            for (ti, exp) in line["evals"].as_array().unwrap().iter().enumerate() {
+                let alts = exp[ni].as_array().unwrap();
+                if alts.is_empty() || !alts.iter().all(|a| a[0] == "i") { continue; }
+                let defined = |v: i64| line["kfs"].as_array().unwrap().iter().any(|k| k["d"][ni].as_array().unwrap().first().and_then(|x| x.as_i64()) == Some(v));
+                // (a plain 0 may also be the type's default of the implicit 0% keyframe: that one is not moved)
+                let want: Vec<i32> = alts.iter().map(|a| { let v = a[1].as_i64().unwrap(); if defined(v) { band_of(v) } else { v as i32 } }).collect();
+                if alts.iter().any(|a| a[1].as_i64() == Some(0)) && defined(0) { continue; }
+                let t = ts.map(|a| a[ti].as_i64().unwrap()).unwrap_or(ti as i64);
+                let mut target = SENT.clone();
+                tl.update(&mut target, t as f32);
+                local.evals += 1;
+                *local.by_class.entry("exact-i32-below-2^24".into()).or_insert(0) += 1;
+                if !want.contains(&target.n) {
+                    local.miss(json!({"line": lineno, "scale": "i32 values moved to odd integers in [2^23, 2^24)", "t": t, "prop": 3, "class": line["cls"][ti][ni], "expected": want, "got": target.n, "what": "update"}));
+                }
+            }
+            local
+        }));
+        match r {
+            Ok(local) => tally.absorb(local),
+            Err(e) => { let msg = e.downcast_ref::<String>().cloned().or_else(|| e.downcast_ref::<&str>().map(|s| s.to_string())).unwrap_or_default();
+                        tally.miss(json!({"line": lineno, "scale": "i32 values moved to odd integers in [2^23, 2^24)", "class": "panic", "panic": msg})); }
         }
     }
     for m in tally.mism.iter_mut().skip(before) {
